@@ -5,6 +5,13 @@ The case format, the splitting oracle and the generators live in ``gen/c11_listf
 one list field (whitespace- or comma-separated), plus a history of edits made through
 ``paragraph.as_interpreted_dict_view(LIST_*_INTERPRETATION)[name]`` used as a context manager.
 
+Sizes: the quantifier puts no bound on how long an item, a line, a word or a list may be, so the
+"sizes" source enumerates fields that outgrow any small fixed buffer, window or look-ahead: one
+comma item on 1..40 continuation lines or of 1..40 words, runs of 1..40 comment lines, lists of 130
+and 1100 values on one line / over many lines, words / blank runs / comment lines of up to 100000
+characters - each read and edited once in every way.  Such a case carries a compact "layout"
+([[piece, repeat], ...], see gen.expand) instead of "first"/"rest"; the oracle is the same.
+
 Besides the edits the statement names (append / remove / replace / ValueReference), a history may
 contain the other public steps of the list view.  None of them changes the reference list, they
 only change what surrounds the values when the next edit happens and how / whether the field is
@@ -52,6 +59,8 @@ Signatures (root causes, not inputs):
   EXC:<Type>@<frame>               (engine) an exception outside the documented contract, e.g. the
                                    KeyError of the blank-first-line defect
 """
+import re
+
 from hypothesis import strategies as st  # noqa: F401  (strategies come from the gen module)
 
 from ..core import Violation, Enum, Hyp, short
@@ -85,13 +94,23 @@ RULE = ("case = one list field (whitespace- or comma-separated; 1..4 lines, thor
         "open during an append and closed inside / after the session, a refused append ('' / separator "
         "inside / blanks around) alone, before re-entering and before a good append, a refused "
         "replace(i) or reference assignment for every i, remove of an absent value} (thorough: + every "
-        "ordered pair of removals). Non-trivial = the field has >=2 "
+        "ordered pair of removals). Sizes (enumerated, compact [[piece, repeat], ...] layouts): one comma "
+        "item on 1..40 continuation lines (space / tab marker, with / without comment lines, first / "
+        "middle / last item) or of 1..40 words, 1..40 one-value lines of a whitespace list, runs of "
+        "1..40 comment lines, 130 and 1100 values on one line / one or three per line / with comment "
+        "lines, words, blank runs and comment lines of 100..100000 characters, both kinds, x {read, "
+        "read through references, append, remove, replace, reference assignment, reference removal of "
+        "the big value and a neighbour}. Non-trivial = the field has >=2 "
         "lines or a comment line, and >=1 edit was applied successfully or refused; distinct = canonical JSON")
 ASSUMPTIONS = [
     "splitting oracle: drop lines 2.. that start with '#', then str.split() / split(',')+strip+drop "
     "empties (gen/c11_listfields.split_values); the model of a history is a Python list",
     "fields without any value are outside the domain (the value tokenizer asserts non-blank input)",
     "characters: space, tab and printable non-space characters only (no CR/VT/FF/NBSP/U+2028...)",
+    "sizes: the statement bounds neither the number of values, lines or comment lines nor the length "
+    "of an item, word or blank run; the 'sizes' source goes up to 1100 values (thorough 5000), 40 "
+    "lines per item (thorough 257) and 100000 characters (thorough 300000); bigger fields are not "
+    "exercised. gen.expand (piece repetition, '@' -> running number) is part of the trusted base",
     "a new value starting with '#' may be rejected with ValueError (either outcome accepted)",
     "texts that are no value of the kind ('' / surrounding blanks / embedded separator / line break "
     "without continuation marker and text; gen.refusable_value) must be refused with ValueError by "
@@ -132,6 +151,20 @@ EXHAUSTIVE = {
     "thorough": "as quick with 0..3 further lines, plus every ordered pair remove(i); "
                 "captured-reference remove(j)",
 }
+EXHAUSTIVE_SIZES = (
+    "sizes (compact cases, 'layout' = [[piece, repeat], ...]): for k = 1..40 (thorough + 64, 100, 257), "
+    "space and tab continuation markers, with and without a comment line before every continuation "
+    "line: ONE comma item on k continuation lines as first / middle / last item (with and without "
+    "trailing comma), k whitespace-list lines of one value; one comma item of k words on a line (2 "
+    "blank shapes); a run of k comment lines between two values / inside a comma item; for n = 130, "
+    "1100 (thorough + 5000) values, both kinds: all on one line (comma: with and without blanks), one "
+    "per line, three per line, one per line with a comment line after each; for n = 100, 1000, 100000 "
+    "(thorough + 300000) characters, both kinds: one word of n characters as first / middle / last "
+    "value and inside a comma item spanning lines, runs of n blanks around a value and after the "
+    "colon, a comment line of n characters; each x {no edit, read through references, append "
+    "(preserve / reformat), remove / replace / reference assignment / reference removal of the big "
+    "value and of a neighbour (many values: first, middle, last), remove in reformat mode}")
+EXHAUSTIVE = {tier: text + "; " + EXHAUSTIVE_SIZES for tier, text in EXHAUSTIVE.items()}
 BUDGET = {"quick": 240, "thorough": 2400}
 
 INTERP = {"ws": LIST_SPACE_SEPARATED_INTERPRETATION, "comma": LIST_COMMA_SEPARATED_INTERPRETATION}
@@ -278,6 +311,36 @@ def layout_labels(case, value_text, values):
         out.append("second-paragraph")
     if any(h.startswith("#") for h in case["head"][-1:]):
         out.append("field-comment")
+    return out
+
+
+BIG_BLANKS = re.compile(r"[ \t]{100}")
+
+
+def size_labels(case, value_text, values):
+    """What in the field is bigger than a small fixed buffer / window / look-ahead would hold."""
+    out = []
+
+    def grade(what, n, steps):
+        hit = [s for s in steps if n >= s]
+        if hit:
+            out.append("size:%s>=%d" % (what, hit[-1]))
+
+    grade("values", len(values), (20, 100, 1000))
+    grade("field-lines", 1 + len(case["rest"]), (7, 20, 100, 1000))
+    grade("value-chars", max(len(v) for v in values), (100, 1000, 100000))
+    lines = [case["first"]] + list(case["rest"])
+    grade("line-chars", max(len(l) for l in lines), (1000, 100000))
+    if case["kind"] == "comma":
+        grade("item-lines", max(v.count("\n") for v in values) + 1, (4, 7, 20, 40))
+        grade("item-words", max(len(v.split()) for v in values), (4, 7, 20, 40))
+    run = best = 0
+    for l in case["rest"]:
+        run = run + 1 if l.startswith("#") else 0
+        best = max(best, run)
+    grade("comment-run", best, (4, 7, 20, 40))
+    if BIG_BLANKS.search(value_text):
+        out.append("size:blank-run>=100")
     return out
 
 
@@ -671,12 +734,17 @@ def uses_captured(ops):
 def check(case):
     if G.invalid(case) is not None:
         return (False, ("invalid-case-skipped",))
+    compact = "layout" in case
+    case = G.expand(case)               # a compact "layout" is spelled out as first / rest
     kind, name = case["kind"], case["name"]
     prefix, ftext, suffix = G.doc_parts(case)
     doc = prefix + ftext + suffix
     value_text = ftext[len(name) + 1:]
     values = G.split_values(kind, value_text)
     labels = set(layout_labels(case, value_text, values))
+    labels.update(size_labels(case, value_text, values))
+    if compact:
+        labels.add("compact-layout")
     labels.add("observe:" + ("after-every-step" if case["observe"] else "never"))
 
     f = parse_deb822_file(iter(G.text_to_lines(doc)))
@@ -785,7 +853,9 @@ def check(case):
 def sources(tier):
     if tier == "quick":
         return [Enum("layouts<=2-single-edits", G.enum_cases(2, False), EXHAUSTIVE["quick"]),
+                Enum("sizes", G.enum_sizes("quick"), EXHAUSTIVE_SIZES),
                 Hyp("fields-x-histories", G.gen_case(5, 4), 700, shards=16)]
     return [Enum("layouts<=3-single-edits+removal-pairs", G.enum_cases(3, True), EXHAUSTIVE["thorough"]),
+            Enum("sizes", G.enum_sizes("thorough"), EXHAUSTIVE_SIZES),
             Hyp("fields-x-histories", G.gen_case(5, 4), 15000, shards=10),
             Hyp("long-fields-x-histories", G.gen_case(8, 6), 10000, shards=6)]
